@@ -7,6 +7,30 @@ ALL = ['C%02d' % i for i in range(1, 21)]
 NA_REASON = {}
 
 
+def job_table():
+    """Regenerate the job table of DESIGN.md section 5 from the property table."""
+    rows = ['| property | job | driver:mode | flavour | configuration | quick | thorough |', '|---|---|---|---|---|---|---|']
+    for pid in ALL:
+        if pid not in PROPS:
+            continue
+        qj = {j.name: j for j in PROPS[pid]['jobs']('quick')}
+        tj = {j.name: j for j in PROPS[pid]['jobs']('thorough')}
+        for name in list(tj.keys()):
+            j = tj[name]
+            cfg = ' '.join('%s=%s' % (k.replace('ARDUINOJSON_', ''), v) for k, v in sorted(j.defines.items())) or 'default'
+            if j.shim:
+                cfg += ' +Arduino shim'
+            qc = qj[name].count if name in qj else None
+            rows.append('| %s | %s | %s:%s | %s | %s | %s | %s |' % (pid, name, j.driver, j.mode if name not in qj else qj[name].mode + ('' if qj[name].mode == j.mode else ' / ' + j.mode), j.flavour, cfg,
+                                                            '-' if qc is None else (qc or 'all'), j.count or 'all'))
+    p = os.path.join(VERIF, 'DESIGN.md')
+    t = open(p).read()
+    b, e = '<!-- JOB-TABLE-BEGIN -->', '<!-- JOB-TABLE-END -->'
+    if b in t:
+        t = t[:t.index(b) + len(b)] + '\n' + '\n'.join(rows) + '\n' + t[t.index(e):]
+        open(p, 'w').write(t)
+
+
 def main():
     hooks_commits = subprocess.run(['git', '-C', REPO, 'log', '--format=%H %s'], stdout=subprocess.PIPE, text=True).stdout.splitlines()
     hook_shas = [l.split()[0] for l in hooks_commits if 'verif hook' in l]
@@ -36,6 +60,7 @@ def main():
                 technique=P['technique']))
         else:
             m['not_applicable'].append(dict(property_id=pid, reason=NA_REASON.get(pid, 'check not built yet (work in progress; DESIGN.md section 5 describes the planned monitor)')))
+    job_table()
     with open(os.path.join(VERIF, 'MANIFEST.json'), 'w') as f:
         json.dump(m, f, indent=1)
     print('MANIFEST.json: %d checks, %d not_applicable' % (len(m['checks']), len(m['not_applicable'])))
